@@ -17,6 +17,7 @@ import (
 	"encoding/json"
 	"errors"
 	"fmt"
+	"strings"
 
 	"github.com/invopop/gobl"
 	"github.com/invopop/gobl/bill"
@@ -168,6 +169,28 @@ func (m *envMachine) surgery(edit func(top map[string]any) bool) string {
 	return "ok"
 }
 
+// envLink: the symbolic value of a link names its WHOLE value: "<url part>" followed by optional
+// "~T<title>", "~D<description>", "~M<mime>" segments (the model treats the value as one opaque string,
+// i.e. two links are the same entry only if every field agrees).
+func envLink(key, value string) *head.Link {
+	segs := strings.Split(value, "~")
+	l := &head.Link{Key: cbc.Key(key), URL: "https://example.com/" + segs[0]}
+	for _, s := range segs[1:] {
+		if s == "" {
+			continue
+		}
+		switch s[0] {
+		case 'T':
+			l.Title = s[1:]
+		case 'D':
+			l.Description = s[1:]
+		case 'M':
+			l.MIME = s[1:]
+		}
+	}
+	return l
+}
+
 func envErrKeyOr(err error, dflt string) string {
 	var ge *gobl.Error
 	if errors.As(err, &ge) {
@@ -231,7 +254,7 @@ func (m *envMachine) apply(op V) (res string) {
 		e.Head.AddStamp(&head.Stamp{Provider: cbc.Key(arg(0)), Value: arg(1)})
 		return "ok"
 	case 5: // add (or alter) link
-		e.Head.AddLink(&head.Link{Key: cbc.Key(arg(0)), URL: "https://example.com/" + arg(1)})
+		e.Head.AddLink(envLink(arg(0), arg(1)))
 		return "ok"
 	case 6: // add tag
 		e.Head.Tags = append(e.Head.Tags, arg(0))
@@ -333,7 +356,7 @@ func (m *envMachine) apply(op V) (res string) {
 		e.Head.Links = out
 		return "ok"
 	case 31: // append a link without looking for the key
-		e.Head.Links = append(e.Head.Links, &head.Link{Key: cbc.Key(arg(0)), URL: "https://example.com/" + arg(1)})
+		e.Head.Links = append(e.Head.Links, envLink(arg(0), arg(1)))
 		return "ok"
 	case 32: // remove a tag
 		out := e.Head.Tags[:0:0]
